@@ -100,7 +100,10 @@ def pka_text(mol, **kw):
     fd, path = tempfile.mkstemp(suffix=".pka", dir="/var/tmp")
     os.close(fd)
     try:
-        mol.write_pka(filename=path, **kw)
+        # MolecularContainer.write_pka renames the file for -d / output tags; call the writer itself
+        import propka.output
+        propka.output.write_pka(mol, mol.version.parameters, filename=path, conformation="AVR",
+                                reference=kw.get("reference", "neutral"), verbose=False)
         return Path(path).read_text()
     finally:
         os.unlink(path)
@@ -205,4 +208,39 @@ def fragment(text, first, last):
     for i, l in enumerate(text.splitlines()):
         if i in keep or (lo < i < hi and l[:3] == "TER"):
             out.append(l)
+    return "\n".join(out) + "\nEND\n"
+
+
+ISOSTERIC = {"ASP": ("ASN", {"OD2": "ND2"}), "GLU": ("GLN", {"OE2": "NE2"}), "ASN": ("ASP", {"ND2": "OD2"}), "GLN": ("GLU", {"NE2": "OE2"})}
+
+
+def altloc_point_mutant(text, res_pred, first="titratable", tags=("A", "B")):
+    """Alt-loc point mutant: the first residue satisfying res_pred(residue dict) of type ASP/GLU gets two alternate
+    locations, one with the original residue and one with its isosteric amide (ASN/GLN).  first='titratable' puts the acid
+    in the first tag.  Returns (text, description) or (None, None)."""
+    lines = text.splitlines()
+    for r in residues(text):
+        if r["name"] in ("ASP", "GLU") and r["tag"] == "ATOM  " and res_pred(r):
+            new_name, ren = ISOSTERIC[r["name"]]
+            orig = [lines[i] for i in r["lines"]]
+            mut = []
+            for l in orig:
+                nm = l[12:16].strip()
+                nm2 = ren.get(nm, nm)
+                name_field = (" " + nm2.ljust(3)) if len(nm2) < 4 else nm2
+                mut.append(l[:12] + name_field + l[16:17] + new_name + l[20:])
+            a = [l[:16] + tags[0] + l[17:] for l in (orig if first == "titratable" else mut)]
+            b = [l[:16] + tags[1] + l[17:] for l in (mut if first == "titratable" else orig)]
+            out = lines[:r["lines"][0]] + a + b + lines[r["lines"][-1] + 1:]
+            return "\n".join(out) + "\n", f"{r['name']}{r['num'].strip()}{r['chain']} alt {tags[0]}={'acid' if first == 'titratable' else 'amide'} {tags[1]}={'amide' if first == 'titratable' else 'acid'}"
+    return None, None
+
+
+def as_models(texts):
+    """several structures as MODEL 1..n of one file"""
+    out = []
+    for i, t in enumerate(texts):
+        out.append(f"MODEL     {i + 1:>4d}")
+        out += [l for l in t.splitlines() if l[:3] not in ("END", "MOD")]
+        out.append("ENDMDL")
     return "\n".join(out) + "\nEND\n"
